@@ -62,7 +62,7 @@ CHECKS.update({
    "For every op sequence up to the completed depth (swaps across/onto/short of bounds both ways, liquidity changes incl. shared and de-initialised bounds, updates, collects; accumulators at 0, mid-range and just below wrap-around; pool starting on a bound): collected+owed of every position is at most its exact pro-rata entitlement and short of it by less than L/2^64 per credited step + 1 per update.",
    SVM + " Hook H2 supplies per-step liquidity/fee and crossings; the active set is re-derived from position ranges and cross-checked against each step's liquidity.", "DESIGN.md §3 C07"),
  "C11": (A, "model_checking",
-   "explicit-state search in ledger mode with the harness clock: exact rational shadow ledgers of reward entitlements per position and reward index (upper bound driven by the harness clock alone, lower bound by the harness\'s own record of settling instructions); enabledness oracles for emission changes, collects and earlier timestamps (incl. re-setting and lowering a rate in force after collects drained the vault, through both handlers); the third reward is paid in a Token-2022 mint with a transfer fee (partial payouts), a root in which only the second reward emits, a position beyond a zero-liquidity gap, reward-authority hand-overs; a full-range-only pool whose price is carried out of the usable range and back",
+   "explicit-state search in ledger mode with the harness clock: exact rational shadow ledgers of reward entitlements per position and reward index (upper bound driven by the harness clock alone, lower bound by the harness\'s own record of settling instructions); enabledness oracles for emission changes, collects and earlier timestamps (incl. re-setting and lowering a rate in force after collects drained the vault, through both handlers); the third reward is paid in a Token-2022 mint with a transfer fee (partial payouts), a root in which only the second reward emits, a position beyond a zero-liquidity gap, reward-authority hand-overs; a full-range-only pool whose price is carried out of the usable range and back; a world in which the first reward's interval overflows 128 bits (dropped) while the second must still accrue",
    "For every op sequence up to the completed depth (clock steps, swaps moving positions in/out of range, liquidity changes, updates, collects against a vault holding exactly one day of emissions, emission changes incl. refused ones, late reward initialisation): credited rewards are within the two-sided rounding bound of the exact share; nothing accrues at zero liquidity or for uninitialised rewards; earlier timestamps fail; collect pays min(owed, vault); emission changes settle at the old rate and need a day of emissions.",
    SVM, "DESIGN.md §3 C11"),
  "C15": (A, "fault_enumeration",
